@@ -16,10 +16,14 @@ open L0
 
 /-- well-formedness of the grammar the optimizer is given (see `NodeOK`, `NotPOK`) -/
 structure WF (F : Feat) (g : Grammar) : Prop where
-  nodes : ∀ r ∈ g.rules, AllN (NodeOK (sigOf g)) r.body
+  nodes : ∀ r ∈ g.rules, AllN (NodeOK ⟨sigOf g, forced r⟩) r.body
   /-- no grammar rule is called `SKIP` -/
   noSkip : ∀ r ∈ g.rules, r.name ≠ "SKIP"
   notp : F.skip = true → ∀ r ∈ g.rules, AllN (NotPOK g) r.body
+  /-- if WHITESPACE gets fused, none of its alternatives is the empty string (the un-optimized
+      `parse_trivia` loop would never end on it, while the fused regex stops) -/
+  wsProgress : ∀ wr es alts, g.lookup "COMMENT" = none → g.lookup "WHITESPACE" = some wr →
+    wr.body = .choice es → Opt.squash 1000 es [] = some alts → ∀ s ci, Alt.lit s ci ∈ alts → s ≠ []
 
 theorem WF.lookup_skip {F : Feat} {g : Grammar} (h : WF F g) : g.lookup "SKIP" = none := by
   unfold Grammar.lookup
@@ -112,8 +116,8 @@ theorem sigOf_ext (g : Grammar) (body : Expr) (hns : g.lookup "SKIP" = none) (n 
     sigOf (ext g body) n = sigOf g n := by
   unfold sigOf; rw [(lookup_ext g body hns).1 n hn]
 
-theorem NodeOK_ext (g : Grammar) (body : Expr) (hns : g.lookup "SKIP" = none) (x : Expr)
-    (h : NodeOK (sigOf g) x) : NodeOK (sigOf (ext g body)) x := by
+theorem NodeOK_ext (g : Grammar) (body : Expr) (hns : g.lookup "SKIP" = none) {fa : Bool} (x : Expr)
+    (h : NodeOK ⟨sigOf g, fa⟩ x) : NodeOK ⟨sigOf (ext g body), fa⟩ x := by
   cases x with
   | ident n t =>
     simp only [NodeOK] at h ⊢
@@ -135,16 +139,17 @@ def FusionWS (g : Grammar) : Prop :=
 
 /-- what `skip` needs of the extended table (OptSoundSkip) -/
 def NPExt (F : Feat) (g : Grammar) : Prop :=
-  F.skip = true → ∀ body e, AllN (NodeOK (sigOf g)) e → AllN (NotPOK g) e → AllN (NotPOK (ext g body)) e
+  F.skip = true → ∀ body fa e, AllN (NodeOK ⟨sigOf g, fa⟩) e → AllN (NotPOK g) e →
+    AllN (NotPOK (ext g body)) e
 
-theorem NSR_of_nodeOK {sg : String → Option (String × Nat)} {e : Expr} (h : AllN (NodeOK sg) e) : NSR e :=
+theorem NSR_of_nodeOK {sg : Cx} {e : Expr} (h : AllN (NodeOK sg) e) : NSR e :=
   AllN.imp (fun x hx => by
     cases x with
     | ident n t => exact hx.2.1
     | _ => trivial) h
 
 theorem Inv_ext {g : Grammar} (hwf : WF F g) (hnp : NPExt F g) (body : Expr)
-    (hb : AllN (NodeOK (sigOf g)) body ∨ ∃ alts, body = .optChoice alts true)
+    (hb : AllN (NodeOK ⟨sigOf g, true⟩) body ∨ ∃ alts, body = .optChoice alts true)
     (hbk : F.skip = true → AllN (NotPOK (ext g body)) body)
     (ht : totalBody body = true)
     (htriv : ¬(g.lookup "WHITESPACE" = none ∧ g.lookup "COMMENT" = none)) :
@@ -155,7 +160,11 @@ theorem Inv_ext {g : Grammar} (hwf : WF F g) (hnp : NPExt F g) (body : Expr)
     rcases hr with hr | rfl
     · exact Or.inl (AllN.imp (NodeOK_ext g body hns) (hwf.nodes r hr))
     · rcases hb with hb | hb
-      · exact Or.inl (AllN.imp (NodeOK_ext g body hns) hb)
+      · have hf : forced (skipRule body) = true := by
+          show ruleAtomic "SKIP" (SILENT + ATOMIC) false = true
+          decide
+        rw [hf]
+        exact Or.inl (AllN.imp (NodeOK_ext g body hns) hb)
       · exact Or.inr ⟨rfl, hb⟩
   · simp only [ext, List.mem_append, List.mem_singleton] at hr
     rcases hr with hr | rfl
@@ -169,7 +178,7 @@ theorem Inv_ext {g : Grammar} (hwf : WF F g) (hnp : NPExt F g) (body : Expr)
     subst hr; exact ht
   · simp only [ext, List.mem_append, List.mem_singleton] at hr
     rcases hr with hr | rfl
-    · exact hnp hF body _ (hwf.nodes r hr) (hwf.notp hF r hr)
+    · exact hnp hF body _ _ (hwf.nodes r hr) (hwf.notp hF r hr)
     · exact hbk hF
 
 theorem Inv_same {g : Grammar} (hwf : WF F g) : Inv F (sigOf g) g :=
@@ -179,51 +188,54 @@ theorem Inv_same {g : Grammar} (hwf : WF F g) : Inv F (sigOf g) g :=
 /-- the outcome of `_optimize_skip_rule` -/
 theorem fusion_sound {g : Grammar} (hwf : WF F g) (hws : FusionWS g) (hnp : NPExt F g) :
     ∃ sg, Inv F sg { g with rules := Opt.optimizeSkipRule g g.rules } ∧
-      ∀ inp e s r, NSR e →
+      ∀ inp e s r, NSR e → s.pos ≤ inp.size →
         (Conv g inp e s r ↔ Conv { g with rules := Opt.optimizeSkipRule g g.rules } inp e s r) := by
   have hns := hwf.lookup_skip
   have hbodies : ∀ n r, g.lookup n = some r → NSR r.body :=
     fun n r h => NSR_of_nodeOK (hwf.nodes r (lookup_mem h))
   rcases optSkip_cases g g.rules hwf.any_skip with h | ⟨cr, hc, hw, hs, h⟩ | ⟨wr, es, alts, hc, hw, hs, hb, hq, ho, h⟩
   · rw [h]
-    exact ⟨sigOf g, Inv_same hwf, fun _ _ _ _ _ => Iff.rfl⟩
+    exact ⟨sigOf g, Inv_same hwf, fun _ _ _ _ _ _ => Iff.rfl⟩
   · rw [h]
     have hcn : cr.name = "COMMENT" := by
       have := List.find?_some hc
       simpa using this
     have hmem : cr ∈ g.rules := List.mem_of_find?_eq_some hc
-    refine ⟨_, Inv_ext hwf hnp (.rep cr.body) (Or.inl ⟨trivial, hwf.nodes cr hmem⟩)
-      (fun hF => ⟨trivial, hnp hF _ _ (hwf.nodes cr hmem) (hwf.notp hF cr hmem)⟩) rfl (fun h => by
+    have hfc : forced cr = true := by
+      simp [forced, ruleAtomic, hcn, L1.isTriviaName]
+    have hcb : AllN (NodeOK ⟨sigOf g, true⟩) cr.body := hfc ▸ hwf.nodes cr hmem
+    refine ⟨_, Inv_ext hwf hnp (.rep cr.body) (Or.inl ⟨trivial, hcb⟩)
+      (fun hF => ⟨trivial, hnp hF _ _ _ (hwf.nodes cr hmem) (hwf.notp hF cr hmem)⟩) rfl (fun h => by
         have : g.lookup "COMMENT" = some cr := hc
         rw [this] at h; exact absurd h.2 (by simp)), ?_⟩
-    intro inp e s r he
+    intro inp e s r he hp
     have hl := lookup_ext g (.rep cr.body) hns
     exact ext_equiv (g := g) (g0 := ext g (.rep cr.body)) rfl hl.1 hbodies
-      (fun inp n ih => skipC_fwd inp hcn hs hwf.fused hw hc (fused_ext g _ hns) (run_AP g inp n) n
-        (ih _ _ (hbodies _ _ hc)))
+      (fun inp n ih => skipC_fwd inp hcn hs hwf.fused hw hc (fused_ext g _ hns) (run_AP g inp n)
+        (run_PB g inp n) n (ih _ _ (hbodies _ _ hc)))
       (fun inp n ih => skipC_bwd inp hcn hs hwf.fused hw hc (fused_ext g _ hns) n (ih _ _ (hbodies _ _ hc)))
-      inp e he s r
+      inp e he s r hp
   · rw [h]
     have hmem : wr ∈ g.rules := List.mem_of_find?_eq_some hw
     refine ⟨_, Inv_ext hwf hnp (.optChoice alts true) (Or.inr ⟨alts, rfl⟩) (fun _ => trivial) rfl (fun h => by
         have : g.lookup "WHITESPACE" = some wr := hw
         rw [this] at h; exact absurd h.1 (by simp)), ?_⟩
-    intro inp e s r he
+    intro inp e s r he hp
     have hl := lookup_ext g (.optChoice alts true) hns
     obtain ⟨f1, f2⟩ := hws wr es alts hc hw hs hb hq ho
-    exact ext_equiv (g := g) (g0 := ext g (.optChoice alts true)) rfl hl.1 hbodies f1 f2 inp e he s r
+    exact ext_equiv (g := g) (g0 := ext g (.optChoice alts true)) rfl hl.1 hbodies f1 f2 inp e he s r hp
 
 /-- **`Opt.optimize`**, for a feature set whose matcher passes have been provided -/
 theorem optimize_sound_of {g g' : Grammar} (hwf : WF F g) (hws : FusionWS g) (hnp : NPExt F g)
     (B : ∀ sg, Builders F sg g) (passes : List Opt.Pass) (hp : ∀ p ∈ passes, Allowed F p)
     (h : Opt.optimize g passes = some g') :
-    (∀ inp e s r, NSR e → (Conv g inp e s r ↔ Conv g' inp e s r)) ∧ SkipTotal g' := by
+    (∀ inp e s r, NSR e → s.pos ≤ inp.size → (Conv g inp e s r ↔ Conv g' inp e s r)) ∧ SkipTotal g' := by
   unfold Opt.optimize at h
   simp only [Option.map_eq_some_iff] at h
   obtain ⟨rs, hfold, rfl⟩ := h
   obtain ⟨sg, hinv0, heq0⟩ := fusion_sound hwf hws hnp
   have := passes_sound (B sg) passes hp _ rs hinv0 hfold
-  refine ⟨fun inp e s r he => (heq0 inp e s r he).trans (this.1 inp e s r), this.2.total⟩
+  refine ⟨fun inp e s r he hp => (heq0 inp e s r he hp).trans (this.1 inp e s r hp), this.2.total⟩
 
 /-- the start rule is a rule of the grammar, so not `SKIP` -/
 theorem NSR_start {g : Grammar} (hwf : WF F g) {start : String} (hs : g.lookup start ≠ none) :
